@@ -9,6 +9,7 @@ from dataclasses import dataclass
 from pathlib import Path
 from typing import cast
 
+from . import _verif_trace
 from ._dsdl import DefinitionVisitor, DSDLFile, ReadableDSDLFile, PrintOutputHandler, SortedFileList
 from ._dsdl import file_sort as dsdl_file_sort
 from ._error import Error, InternalError
@@ -56,6 +57,13 @@ def _read_definitions(
             target_definition.composite_type in direct or target_definition.composite_type in transitive
         ):
             logging.debug("Skipping target file %s because it has already been processed", target_definition.file_path)
+            if _verif_trace.ENABLED:
+                _verif_trace.emit(
+                    "classify",
+                    file=str(target_definition.file_path),
+                    level=level,
+                    action="promote" if (level == 0 and target_definition.composite_type in transitive) else "skip",
+                )
             if level == 0 and target_definition.composite_type in transitive:
                 # promote to direct
                 transitive.remove(target_definition.composite_type)
@@ -75,6 +83,13 @@ def _read_definitions(
         except Exception as ex:  # pragma: no cover
             raise InternalError(culprit=ex, path=target_definition.file_path) from ex
 
+        if _verif_trace.ENABLED:
+            _verif_trace.emit(
+                "classify",
+                file=str(target_definition.file_path),
+                level=level,
+                action="direct" if level == 0 else "transitive",
+            )
         if level == 0:
 
             direct.add(new_composite_type)
